@@ -394,7 +394,9 @@ def judge_roundtrip(kind, items, exp_v, what):
         return Fail("C14/duration-not-normalised", "%s: %r is not in normalised form" % (what, st))
     if k == "ymd" and not cal.ymd_is_normalised(st):
         return Fail("C14/duration-not-normalised", "%s: %r is not in normalised form" % (what, st))
-    if is_null(w) or eq is not True:
+    if st in GAP_TEXTS and not is_null(w) and eq is not False:
+        pass        # a skipped local time: read back as a value; equal to itself or not comparable
+    elif is_null(w) or eq is not True:
         return Fail(diagnose_readback(kind, st, ps[1], w, eq), "%s: the text form %r read back gives %r, equal to the original: %r" % (what, st, w, eq))
     if not (isinstance(sw, dict) and sw.get("s") == st):
         return Fail("C14/text-not-idempotent", "%s: %r reads back and prints as %r" % (what, st, sw))
@@ -652,11 +654,28 @@ def gen_time_text(src):
     return t
 
 
+# local times that the named zone skips (clocks go forward): valid literals that print back; they denote no instant, so nothing is said
+# about comparing them (not even with themselves)
+GAP_TEXTS = ["2021-03-28T02:30:00@Europe/Warsaw", "2021-03-14T02:30:00@America/New_York", "2019-10-06T02:30:00@Australia/Sydney",
+             "2015-03-29T01:30:00@Europe/London", "2018-11-04T00:30:00@America/Sao_Paulo", "2010-03-28T02:00:00@Europe/Berlin"]
+
+
 def gen_dt_text(src):
     z = src.weighted([(3, "local"), (2, "Z"), (5, "offset"), (3, "zone")])
     if z == "zone":
-        # local fields of an instant that is far from any offset change of the zone (1980..2020)
         name = src.choice(zones.both())
+        how = src.weighted([(6, "stable"), (3, "far-year"), (1, "gap")])
+        if how == "far-year":
+            # a named zone next to a year the zone rules say nothing about (also beyond the range of the date library the code under test
+            # uses): still a valid literal that prints back; noon, so that no clock change is near whatever the rules are extended to
+            y = gen_year(src)
+            if 1800 <= abs(y) <= 2100:
+                y += 3000 if y > 0 else -3000
+            m, d = gen_md(src, y)
+            return "%sT12:%02d:%02d%s@%s" % (cal.fmt_date(y, m, d), src.int(0, 59), src.int(0, 59), gen_fraction(src), name)
+        if how == "gap":
+            return src.choice(GAP_TEXTS)
+        # local fields of an instant that is far from any offset change of the zone (1980..2020)
         t = zones.stable_instant(name, src.int(zones.T_1980, zones.T_2020 - 40 * 5 * 86400))
         y, m, d, h, mi, s, _ = cal.fields_from_instant(t * cal.NS, zones.offset_at(name, t))
         return "%sT%02d:%02d:%02d%s@%s" % (cal.fmt_date(y, m, d), h, mi, s, gen_fraction(src), name)
